@@ -116,4 +116,94 @@ let () =
       let c = shift_ctx (refresh s) (zs d) in Hashtbl.replace ctxs s c;
       show_res (z 0) (z 0) [] c | _ -> "badargs")
 
+(* ------------------------------------------------------------------ HC streams at the LZ4MID levels (Model/HcMidStream.v)
+     hinit <sid> | hrs <sid> <level> | hrsf <sid> <level> | hlvl <sid> <level>
+     hld <sid> <addr> <n> | hatt <sid> <did|-1> | hcont <sid> <addr> <n> <cap> | hcds <sid> <addr> <n> <target>
+     hsave <sid> <addr> <n> | hfr <sid> <addr> <n> <cap> <level> | hext <sid> <addr> <n> <cap> <level>
+     himport <sid> <end> <prefixStart> <dictStart> <dictLimit> <lowLimit> <ntu> <level> <dirty> <hashTable hex (2 x 16384 LE U32)>
+   Answer: ret consumed outlen outmd5 end= ps= ds= dl= ll= ntu= lvl= dirty= dctx= h4= h8= [mem=]   or   out   (call outside the model) *)
+let hctxs : (int, hsctx) Hashtbl.t = Hashtbl.create 16
+let hattached : (int, int) Hashtbl.t = Hashtbl.create 16
+let hgetc sid = match Hashtbl.find_opt hctxs sid with Some c -> c | None -> hs_init
+
+let mid_tab_digest (m : mem) : string =
+  let n = 16384 in
+  let b = Bytes.create (4 * n) in
+  for i = 0 to n - 1 do
+    let v = zi (get m (z i)) in
+    Bytes.set b (4*i) (Char.chr (v land 255));
+    Bytes.set b (4*i+1) (Char.chr ((v lsr 8) land 255));
+    Bytes.set b (4*i+2) (Char.chr ((v lsr 16) land 255));
+    Bytes.set b (4*i+3) (Char.chr ((v lsr 24) land 255))
+  done;
+  Digest.to_hex (Digest.bytes b)
+
+let show_hctx (c : hsctx) =
+  let k = c.hs_core in
+  Printf.sprintf "end=%s ps=%s ds=%s dl=%s ll=%s ntu=%s lvl=%s dirty=%d dctx=%s h4=%s h8=%s"
+    (zstr k.k_end) (zstr k.k_prefixStart) (zstr k.k_dictStart) (zstr k.k_dictLimit) (zstr k.k_lowLimit) (zstr k.k_ntu)
+    (zstr k.k_level) (if k.k_dirty then 1 else 0) (match c.hs_dctx with None -> "0" | Some _ -> "1")
+    (mid_tab_digest k.k_h4) (mid_tab_digest k.k_h8)
+let show_hres ret consumed out c = Printf.sprintf "%s %s %s %s" (zstr ret) (zstr consumed) (show_bytes out) (show_hctx c)
+
+let hrefresh sid =
+  let c = hgetc sid in
+  match c.hs_dctx, Hashtbl.find_opt hattached sid with
+  | Some _, Some did ->
+    let c' = { c with hs_dctx = Some (hgetc did).hs_core } in
+    Hashtbl.replace hctxs sid c'; c'
+  | _ -> c
+
+let hfinish s (r : hsres option) =
+  match r with
+  | None -> "out"
+  | Some (HRes (ret, consumed, out, hw, c)) ->
+    Hashtbl.replace hctxs s c;
+    if c.hs_dctx = None then Hashtbl.remove hattached s;
+    show_hres ret consumed out c ^ " hw=" ^ zstr hw
+
+let () =
+  let set s c = Hashtbl.replace hctxs s c; show_hres (z 0) (z 0) [] c in
+  reg "reset" (function _ -> mem := empty_mem; Hashtbl.reset ctxs; Hashtbl.reset attached; Hashtbl.reset hctxs; Hashtbl.reset hattached; "ok");
+  reg "hinit" (function [sid] -> let s = ios sid in Hashtbl.remove hattached s; set s hs_init | _ -> "badargs");
+  reg "hrs" (function [sid; l] -> let s = ios sid in Hashtbl.remove hattached s; set s (hs_resetStream (zs l)) | _ -> "badargs");
+  reg "hrsf" (function [sid; l] -> let s = ios sid in let c = hs_resetFast (hrefresh s) (zs l) in Hashtbl.remove hattached s; set s c | _ -> "badargs");
+  reg "hlvl" (function [sid; l] -> let s = ios sid in set s (hs_setLevel (hgetc s) (zs l)) | _ -> "badargs");
+  reg "hld" (function [sid; a; n] ->
+      let s = ios sid in
+      (match hs_loadDict !mem (hgetc s) (zs a) (zs n) with
+       | None -> "out"
+       | Some (c, r) -> Hashtbl.replace hctxs s c; Hashtbl.remove hattached s; show_hres r (z 0) [] c)
+    | _ -> "badargs");
+  reg "hatt" (function [sid; did] ->
+      let s = ios sid and d = ios did in
+      let c = hs_attach (hgetc s) (if d < 0 then None else Some (hgetc d)) in
+      if d >= 0 then Hashtbl.replace hattached s d else Hashtbl.remove hattached s;
+      set s c
+    | _ -> "badargs");
+  reg "hcont" (function [sid; a; n; cap] -> let s = ios sid in hfinish s (hs_continue !mem (hrefresh s) (zs a) (zs n) (zs cap)) | _ -> "badargs");
+  reg "hcds" (function [sid; a; n; cap] -> let s = ios sid in hfinish s (hs_continue_destSize !mem (hrefresh s) (zs a) (zs n) (zs cap)) | _ -> "badargs");
+  reg "hsave" (function [sid; a; n] ->
+      let s = ios sid in
+      let ((m', c'), r) = hs_saveDict !mem (hrefresh s) (zs a) (zs n) in
+      mem := m'; Hashtbl.replace hctxs s c';
+      let saved = load_list m' (zs a) r in
+      show_hres r (z 0) [] c' ^ " mem=" ^ Digest.to_hex (Digest.string (string_of_bytes saved))
+    | _ -> "badargs");
+  reg "hfr" (function [sid; a; n; cap; l] -> let s = ios sid in hfinish s (hs_fastReset !mem (hrefresh s) (zs a) (zs n) (zs cap) (zs l)) | _ -> "badargs");
+  reg "hext" (function [sid; a; n; cap; l] -> let s = ios sid in Hashtbl.remove hattached s; hfinish s (hs_extState !mem (zs a) (zs n) (zs cap) (zs l)) | _ -> "badargs");
+  reg "himport" (function [sid; e; ps; ds; dl; ll; ntu; lvl; dirty; tab] ->
+      let s = ios sid in
+      let word i = 
+        let b k = hexval tab.[8*i + 2*k] * 16 + hexval tab.[8*i + 2*k + 1] in
+        b 0 + 256 * b 1 + 65536 * b 2 + 16777216 * b 3 in
+      let rec fill m base i = if i >= 16384 then m else
+          let v = word (base + i) in fill (if v = 0 then m else store_list m (z i) [z v]) base (i + 1) in
+      let h4 = fill empty_mem 0 0 and h8 = fill empty_mem 16384 0 in
+      let k = { k_h4 = h4; k_h8 = h8; k_end = zs e; k_prefixStart = zs ps; k_dictStart = zs ds; k_dictLimit = zs dl; k_lowLimit = zs ll;
+                k_ntu = zs ntu; k_level = zs lvl; k_dirty = (dirty = "1") } in
+      let c = { hs_core = k; hs_dctx = (hgetc s).hs_dctx } in
+      set s c
+    | _ -> "badargs")
+
 let () = Common.main ()
